@@ -114,7 +114,7 @@ var srcC09 = []*g2lTarget{
 		subst:   c09Subst(nil),
 	},
 	{
-		file: c09OCI, recv: "OCIDocument", fn: "Validate", leanName: "OCIDocument.Validate",
+		file: c09OCI, recv: "OCIDocument", fn: "Validate", recvName: "policyDoc", leanName: "OCIDocument.Validate",
 		params: "(parseDN : String → GoLite.Map String String × Option GoLite.Err) (policyDoc : Option OCIDocument)",
 		ret:    "Option GoLite.Err", retOpt: []bool{true},
 		optVars: []string{"err", "policyDoc"},
@@ -125,7 +125,7 @@ var srcC09 = []*g2lTarget{
 		},
 	},
 	{
-		file: c09Blob, recv: "BlobDocument", fn: "Validate", leanName: "BlobDocument.Validate",
+		file: c09Blob, recv: "BlobDocument", fn: "Validate", recvName: "policyDoc", leanName: "BlobDocument.Validate",
 		params: "(parseDN : String → GoLite.Map String String × Option GoLite.Err) (policyDoc : Option BlobDocument)",
 		ret:    "Option GoLite.Err", retOpt: []bool{true},
 		optVars: []string{"err", "policyDoc"},
